@@ -33,7 +33,7 @@ REGISTRY = {
 
 TYPES = ('str', 'annotation', 'span', 'str-span', 'annotation-span')
 MASS_POOL = annot.NAMED + annot.FORMULAS + annot.GLYCANS + annot.NUMS + annot.NUMS + \
-    ['Oxidation|INFO:ok', 'Phospho#g1', '+15.995|Oxidation', 'Oxidation#s1(0.75)']
+    ['Oxidation|INFO:ok', 'Phospho#g1', '+15.995|Oxidation', 'Oxidation#s1(0.75)'] + cc.LONG_FLOATS + cc.LONG_FLOATS
 KINDS = {'labile', 'static', 'isotope', 'nterm', 'cterm', 'internal', 'intervals'}
 RES = 'ACDEFGHIKLMNPQRSTVWY' + 'KRKRDEFLP'
 EXTRA_RULES = ['(?<=K)(?=A)', '([KR])', '(D)(?=E)', '[DE]']
@@ -135,7 +135,7 @@ def o_pieces(c):
     k = len(spans)
     if not (len(strs) == len(anns) == len(ssp) == len(asp) == k):
         return f'return types give different numbers of peptides: {k, len(strs), len(anns), len(ssp), len(asp)}'
-    rt_ok = cc.roundtrips(a) and not cc.is_odd(a)
+    rt_ok = cc.in_reparse_domain(a)
     for idx, sp in enumerate(spans):
         s, e = sp[0], sp[1]
         p = anns[idx]
@@ -237,7 +237,7 @@ def o_lineage(c):
         return f'str return type on the annotation with history: {s1}'
     if show_pieces(lineage_digest(x, c)) != show_pieces(o1):
         return 'second digest of the same annotation differs from the first'
-    if not cc.is_odd(fresh) and cc.roundtrips(fresh):
+    if cc.in_reparse_domain(fresh):
         o3 = lineage_digest(parse(fresh.serialize()), c)
         if annot_norm_pieces(show_pieces(o3)) != annot_norm_pieces(show_pieces(o1)):
             return (f'digest of the annotation with history {c[2]} differs from the digest of its re-parse '
@@ -444,7 +444,7 @@ def run(chk):
     cover.__enter__()
     chk.correspond('digest', DRV, dig, dig_line, dig_impl, compare=lambda im, m: im == canon_reply(m), nontrivial_fn=nontrivial)
 
-    rt_dig = [c for c in dig[::4] if cc.roundtrips(annot.undump(c[1])) and not cc.is_odd(annot.undump(c[1]))]
+    rt_dig = [c for c in dig[::4] if cc.in_reparse_domain(annot.undump(c[1]))]
     chk.correspond('digest(str input)', DRV, rt_dig, dig_line, dig_impl_str,
                    compare=lambda im, m: annot_norm_pieces(im) == annot_norm_pieces(canon_reply(m)), nontrivial_fn=nontrivial)
 
@@ -455,7 +455,7 @@ def run(chk):
     chk.correspond('generators', DRV, gens, gen_line, dig_impl, compare=lambda im, m: im == canon_reply(m),
                    nontrivial_fn=nontrivial)
 
-    rt_gen = [c for c in gens[::3] if cc.roundtrips(annot.undump(c[1])) and not cc.is_odd(annot.undump(c[1]))]
+    rt_gen = [c for c in gens[::3] if cc.in_reparse_domain(annot.undump(c[1]))]
     chk.correspond('generators(str input)', DRV, rt_gen, gen_line, gen_impl_str,
                    compare=lambda im, m: annot_norm_pieces(im) == annot_norm_pieces(canon_reply(m)), nontrivial_fn=nontrivial)
 
